@@ -266,7 +266,7 @@ fn rw(law: &'static str, expr: String, exp: Expect) -> Rw {
 
 const PRELUDE: &str = "@use \"sass:color\";\n@use \"sass:math\";\n\
 @function t($e, $c) { @return $e ($e == $c); }\n\
-@function u($e) { @return $e ($e == rgba(red($e), green($e), blue($e), alpha($e))); }\n";
+@function u($e) { @return $e ($e == rgba(red($e), green($e), blue($e), alpha($e)) and lightness($e) >= 0% and lightness($e) <= 100% and saturation($e) >= 0% and saturation($e) <= 100% and lighten($e, 0%) == $e and darken($e, 0%) == $e); }\n";
 
 /// number with up to 12 decimals, no exponent
 fn f12(v: f64) -> String {
